@@ -26,7 +26,12 @@ RULE = (
     "driver's qSpec on every short case; four threads calling tdc at once; sessions of many calls on one "
     "LinearPsmDataset (columns of every dtype, both directions, default threshold); pandas Series in their own "
     "dtype (nullable extension dtypes too) under non-default row indexes; results of earlier calls must stay "
-    "untouched by later ones; labels must be exactly +1/0/-1"
+    "untouched by later ones; labels must be exactly +1/0/-1; third pass: one call per run with more than 2^24 targets "
+    "(a histogram of 1-40 tie groups expanded to about 17 M rows in block/reversed/strided/shuffled order; thorough and "
+    "odd quick seeds: also more than 2^24 decoys, about 34 M rows) against the closed formula on the histogram in int64 "
+    "arithmetic and against the model on the histogram (`qblocks`, proved to be the defining formula of every input "
+    "with that histogram); the model with int64 counts (`tdccnt`) on every case; numpy's float32 and int64 running "
+    "sums against the count-type models (`cumcount`); integer scores beyond 2^24 against the formula (float64 cast)"
 )
 
 
@@ -163,8 +168,9 @@ def gen_case(rng, nmax):
         vals = [Fraction(v) for v in dict.fromkeys(vals)]
         vstyle = "dtype-extremes"
     elif sdt in ("int32", "uint32", "int64", "uint64") and style_roll < 0.34:
-        # integers the float32 cast of tdc merges (beyond 2^24): outside "small-integer dtype"; the code is compared
-        # with the model of the cast only (see `embeds`)
+        # integers beyond 2^24 (single precision would merge them; tdc casts integer dtypes to float64 since /repo
+        # 36ef8db, so they must stay apart) and, for the 64-bit dtypes, beyond 2^53 (there the float64 cast merges:
+        # outside "small-integer dtype", compared with the model of the cast only, see `embeds`)
         base = rng.choice([2 ** 24, 2 ** 25, 2 ** 30, 3 * 2 ** 24])
         if sdt in ("int64", "uint64") and rng.random() < 0.4:
             base = rng.choice([2 ** 40, 2 ** 53, 2 ** 62])
@@ -366,7 +372,7 @@ def wire_psms(case):
     return [[Fraction(x), bool(l)] for x, l in zip(case["scores"], case["labels"])]
 
 
-NOPS = 7     # driver lines per case in eval_cases
+NOPS = 8     # driver lines per case in eval_cases
 
 _ROUNDED = {}
 
@@ -443,9 +449,15 @@ def eval_cases(chk, cases, entries_q, with_labels=True):
         ws = [int(x) for x in c["scores"]] if isint else [Fraction(x) for x in c["scores"]]
         # tdc as called, with the score dtype and the label encoding explicit (cast, sort key, validation)
         lines.append(req("tdcentry", c["desc"], Atom("int" if isint else "float"), ws, Atom(WIRE_KIND[c["lkind"]]), wl))
-        lines.append(req("f32ofint", sorted(set(ws)) if isint else []))
+        lines.append(req("f64ofint", sorted(set(ws)) if isint else []))
         lines.append(req("labelsentry", c["desc"], c["thr"], Atom("int" if isint else "float"), ws,
                          Atom(WIRE_KIND[c.get("llkind", "bool")]), wire_labels(c["labels"], c.get("llkind", "bool"))))
+        # tdc as called with the count dtype explicit (int64 counts: the code as it is); exhaustive sweep: every 4th
+        if c["pat"] != "exhaustive" or len(lines) % 32 == 7:
+            lines.append(req("tdccnt", Atom("i64"), 0, c["desc"], Atom("int" if isint else "float"), ws,
+                             Atom(WIRE_KIND[c["lkind"]]), wl))
+        else:
+            lines.append(req("f64ofint", []))
     resp = common.driver_batch(lines)
     prev_q = prev_lab = None
     for k, c in enumerate(cases):
@@ -459,19 +471,21 @@ def eval_cases(chk, cases, entries_q, with_labels=True):
         mcast = deep(a_int, dec(resp[NOPS * k + 5]))
         mle = dec(resp[NOPS * k + 6])
         mle = deep(a_int, mle) if isinstance(mle, list) else mle
+        mc = dec(resp[NOPS * k + 7])
+        mc = deep(a_rat, mc) if isinstance(mc, list) and (c["pat"] != "exhaustive" or (NOPS * k + 7) % 32 == 7) else None
         s, t = to_arrays(c)
         s0, t0 = s.copy(), t.copy()
         entry = c["entry"]
-        # integer scores: does the float32 cast of tdc (as modelled by f32OfInt) keep the order of the scores present?
-        # If not (distinct scores beyond 2^24 merged) the input is outside "small-integer dtype": the code is then
+        # integer scores: does the float64 cast of tdc (as modelled by f64OfInt) keep the order of the scores present?
+        # If not (distinct scores beyond 2^53 merged) the input is outside "small-integer dtype": the code is then
         # compared with the model of the entry only, nothing is claimed about the formula
         embeds = True
         if c["sdtype"] in INT_RANGE:
             present = sorted(set(int(x) for x in c["scores"]))
             embeds = all(a < b for a, b in zip(mcast, mcast[1:]))
-            npcast = [int(v) for v in np.array(present, dtype=c["sdtype"]).astype(np.float32).tolist()]
+            npcast = [int(v) for v in np.array(present, dtype=c["sdtype"]).astype(np.float64).tolist()]
             if npcast != mcast:
-                chk.corr_break("f32ofint", dict(case=jsonable(c), impl=[str(v) for v in npcast],
+                chk.corr_break("f64ofint", dict(case=jsonable(c), impl=[str(v) for v in npcast],
                                                 model=[str(v) for v in mcast]))
             chk.count("int-cast", "order-kept" if embeds else "merges-distinct-scores(outside)")
         try:
@@ -497,6 +511,8 @@ def eval_cases(chk, cases, entries_q, with_labels=True):
             if not (isinstance(me, list) and got == [rounded(b) for b in me]):
                 chk.corr_break("tdcentry", dict(case=jsonable(c), impl=got,
                                                 model=[str(x) for x in me] if isinstance(me, list) else me))
+            if mc is not None and mc != me:
+                chk.corr_break("tdccnt", dict(case=jsonable(c), impl=got, model=[str(x) for x in mc]))
             if c.get("lentry") in ("_update_labels", "_update_labels-default-direction") and with_labels:
                 outside_labels(chk, c, s, me, mle)
             elif c.get("lentry") == "_update_labels-series-native" and with_labels and \
@@ -554,6 +570,10 @@ def eval_cases(chk, cases, entries_q, with_labels=True):
         elif not ent_ok:
             chk.corr_break("tdcentry", dict(case=jsonable(c), impl=got,
                                             model=[str(x) for x in me] if isinstance(me, list) else me))
+        elif mc is not None and not (len(got) == len(mc) and all(a == rounded(b) for a, b in zip(got, mc))):
+            chk.corr_break("tdccnt", dict(case=jsonable(c), impl=got, model=[str(x) for x in mc]))
+        if mc is not None:
+            chk.count("count-dtype-model", "int64")
         if not with_labels:
             continue
         # labels: the label entry points get the labels in the generated encoding, not only as bool
@@ -916,8 +936,7 @@ def gen_session(rng):
             vals = [Fraction(v) for v in rng.sample(range(-128, 128), min(pool, 256))]
         elif dt in ("int64", "Int64") and rng.random() < 0.4:
             # an integer column whose values single precision would merge; a column reaches tdc as float64
-            # (`scores.values.astype(float)`), which keeps them apart: outside "small-integer dtype", compared as
-            # correspondence with the model (scores exact) only
+            # (`scores.values.astype(float)`) and an integer array is cast to float64 by tdc: both keep them apart
             b = rng.choice([2 ** 24, 2 ** 30, 2 ** 40])
             vals = [Fraction(b + rng.randint(0, 6)) for _ in range(max(2, pool))]
             wide = True
@@ -1011,9 +1030,7 @@ def eval_sessions(chk, sessions):
             got = [float(x) for x in out]
             if boundary:
                 chk.float_boundary += 1
-            if got != [float(x) for x in (stored if boundary else exact)] and f.get("wide"):
-                chk.corr_break("labels-wide-integer-column", dict(js, impl=got, model=stored if boundary else exact))
-            elif got != [float(x) for x in (stored if boundary else exact)]:
+            if got != [float(x) for x in (stored if boundary else exact)]:
                 chk.spec_violation(sig, dict(js, impl=got, expected=stored if boundary else exact,
                                              clause="training labels of a call on a dataset used before differ from "
                                                     "the spec of that call's own scores, direction and threshold"))
@@ -1103,7 +1120,7 @@ def lscore_array(c):
 
 
 def ljson(c):
-    return dict(c, thr=str(c["thr"]))
+    return dict({k: v for k, v in c.items() if k != "_hist"}, thr=str(c["thr"]))
 
 
 def lfrom_json(d):
@@ -1120,6 +1137,15 @@ def eval_large(chk, cases):
         lines.append(req("tdc", c["desc"], ps) if n <= 5000 else req("f32ofint", []))
         lines.append(req("tdcarr", c["desc"], ps) if n <= 1100 else req("f32ofint", []))
         lines.append(req("qspec", c["desc"], ps) if n <= 150 else req("f32ofint", []))
+        # the formula on the histogram of the input (model `qBlocks`, proved to be the defining formula of every input
+        # with that histogram): one row per distinct score
+        hist = {}
+        for x, l in zip(c["scores"], c["labels"]):
+            h = hist.setdefault(x, [0, 0])
+            h[0 if l else 1] += 1
+        c["_hist"] = sorted(hist) if len(hist) <= 1200 else None
+        lines.append(req("qblocks", c["desc"], [[Fraction(x, c["den"]), [hist[x][0], hist[x][1]]] for x in c["_hist"]])
+                     if c["_hist"] is not None else req("f32ofint", []))
     resp = common.driver_batch(lines)
     for k, c in enumerate(cases):
         n = len(c["scores"])
@@ -1144,8 +1170,14 @@ def eval_large(chk, cases):
                                dict(lcase=ljson(c), summary=small, first_differences=[(i, q[i], str(sp[i])) for i in bad],
                                     clause="q-value differs from the defining formula (long input)"))
             continue
+        if c["_hist"] is not None:
+            mb = dec(resp[4 * k + 3])
+            row = {x: i for i, x in enumerate(c["_hist"])}
+            chk.count("long-histogram-model", "qblocks")
+            if not isinstance(mb, list) or [a_rat(mb[row[x]]) for x in c["scores"]] != sp:
+                chk.corr_break("qblocks", dict(lcase=ljson({k2: v for k2, v in c.items() if k2 != "_hist"}), summary=small))
         for j, op in ((0, "tdc"), (1, "tdcarr"), (2, "qspec")):
-            m = dec(resp[3 * k + j])
+            m = dec(resp[4 * k + j])
             if (op == "tdc" and n <= 5000) or (op == "tdcarr" and n <= 1100) or (op == "qspec" and n <= 150):
                 if not isinstance(m, list) or [a_rat(x) for x in m] != sp:
                     chk.corr_break(op if op != "qspec" else "qspec-restatement", dict(lcase=ljson(c), summary=small))
@@ -1193,6 +1225,218 @@ def large_inputs(chk, rng, sizes):
     eval_large(chk, [gen_large(rng, n) for n in sizes])
 
 
+# ----------------------------------------------------------------------------------------------
+# inputs whose running counts exceed 2^24 (a single precision count stalls there: seeded change C01e).  The case is
+# a *histogram* (score, #targets, #decoys per tie group) expanded to rows in some order; the expected q-values
+# come from the closed formula on the histogram in int64 arithmetic, and independently from the driver's
+# `qblocks` (model `qBlocks`, proved in Props/C01Cnt.lean to be the defining formula of every input with that
+# histogram, in any order).  Nothing row-by-row goes through the driver.
+# ----------------------------------------------------------------------------------------------
+P24 = 2 ** 24
+
+
+def _partition(rng, total, parts):
+    """`parts` non-negative integers summing to `total`, sizes very uneven (tiny and huge blocks)"""
+    if parts == 1:
+        return [total]
+    cuts = sorted(int(total * rng.random() ** rng.choice([1, 3])) for _ in range(parts - 1))
+    return [b - a for a, b in zip([0] + cuts, cuts + [total])]
+
+
+def gen_huge(rng, both):
+    """more than 2^24 targets (and, if `both`, more than 2^24 decoys below a larger number of targets: q < 1 needs
+    targets > decoys) in one call.  Layout "head": the best tie group alone holds more than 2^24 targets (decoys), so
+    every later threshold (up to 39 of them, odd counts) lies beyond 2^24; "spread": sizes very uneven, anywhere"""
+    B = rng.choice([1, 2, 3, 5, 9, 17, 40])
+    layout = rng.choice(["head", "head", "spread"])
+    sdt = rng.choice(["int8", "float32", "float64", "int32", "uint8"])
+    nT = P24 + rng.choice([5, 1000, 2 ** 16, 2 ** 20, 2 ** 21])
+    nD = rng.choice([0, 3, 500, 2 ** 14, 2 ** 19])
+    if both:
+        nD = P24 + rng.choice([7, 2 ** 12, 2 ** 18])
+        nT = nD + rng.choice([9, 2 ** 13, 2 ** 19])
+    desc = rng.random() < 0.5
+    entry = rng.choice(["tdc", "qvalues_from_scores"])
+    if entry == "qvalues_from_scores":
+        desc = True
+    lo, hi = INT_RANGE.get(sdt, (-2 ** 20, 2 ** 20))
+    vals = rng.sample(range(max(lo, -2 ** 20), min(hi, 2 ** 20) + 1), B)
+    if layout == "head" and B > 1:
+        vals.sort(reverse=desc)                                  # block 0 is the best tie group
+        restT = min(nT - P24 - 1, rng.choice([B, 40 * B, 2 ** 12 * B]))
+        restD = min(nD - (P24 + 1 if both else 0), rng.choice([B, 7 * B, 2 ** 10 * B])) if nD else 0
+        restD = max(restD, 0)
+        nts = [nT - restT] + [x + 0 for x in _partition(rng, restT, B - 1)]
+        nds = [nD - restD] + _partition(rng, restD, B - 1)
+    else:
+        nts, nds = _partition(rng, nT, B), _partition(rng, nD, B)
+    blocks = [[v, a, b] for v, a, b in zip(vals, nts, nds) if a + b > 0]
+    return dict(blocks=blocks, den=1 if sdt in INT_RANGE else rng.choice([1, 2, 8]), sdtype=sdt, desc=desc,
+                lkind=rng.choice(LABEL_KINDS), order=rng.choice(["blocks", "reversed", "stride", "shuffle"]),
+                oseed=rng.randrange(2 ** 31), entry=entry, layout=layout,
+                lentry=rng.choice(["_update_labels", "_update_labels-series"]), thr_pick=rng.random(), pat="huge")
+
+
+def huge_arrays(c):
+    """(scores, labels, block id of every row) of the expanded histogram, in the case's row order"""
+    blocks = c["blocks"]
+    B = len(blocks)
+    seg = np.array([x for b in blocks for x in (b[1], b[2])], dtype=np.int64)
+    ids = np.repeat(np.repeat(np.arange(B, dtype=np.int32), 2), seg)
+    lab = np.repeat(np.tile(np.array([True, False]), B), seg)
+    n = len(ids)
+    if c["order"] == "reversed":
+        ids, lab = ids[::-1].copy(), lab[::-1].copy()
+    elif c["order"] == "stride":
+        k = 1000003
+        while np.gcd(k, n) != 1:
+            k += 2
+        perm = (np.arange(n, dtype=np.int64) * k) % n
+        ids, lab = ids[perm], lab[perm]
+    elif c["order"] == "shuffle":
+        perm = np.random.default_rng(c["oseed"]).permutation(n)
+        ids, lab = ids[perm], lab[perm]
+    vals = np.array([b[0] for b in blocks], dtype=np.int64)
+    if c["sdtype"] in INT_RANGE:
+        sc = vals.astype(c["sdtype"])[ids]
+    else:
+        sc = (vals.astype(np.float64) / c["den"]).astype(c["sdtype"])[ids]
+    if c["lkind"] == "int01":
+        lab = lab.astype(np.int64)
+    elif c["lkind"] == "float01":
+        lab = lab.astype(np.float64)
+    return sc, lab, ids
+
+
+def huge_expected(c):
+    """closed formula on the histogram: per block (q as stored, exact q as a Fraction), int64 counts"""
+    blocks = c["blocks"]
+    key = np.array([(-b[0] if c["desc"] else b[0]) for b in blocks], dtype=np.int64)
+    o = np.argsort(key, kind="stable")                         # best block first (scores are distinct)
+    cT = np.cumsum(np.array([blocks[i][1] for i in o], dtype=np.int64))
+    cD = np.cumsum(np.array([blocks[i][2] for i in o], dtype=np.int64))
+    fdr = np.ones(len(o), dtype=np.float32)
+    np.divide(cD + 1, cT, out=fdr, where=(cT != 0))
+    q = np.minimum.accumulate(np.minimum(fdr.astype(np.float64), 1.0)[::-1])[::-1]
+    qx, lo = [None] * len(o), Fraction(1)
+    for j in range(len(o) - 1, -1, -1):
+        if int(cT[j]):
+            lo = min(lo, Fraction(int(cD[j]) + 1, int(cT[j])))
+        qx[j] = lo
+    stored, exact = np.empty(len(o)), [None] * len(o)
+    for j, i in enumerate(o):
+        stored[i], exact[i] = q[j], qx[j]
+    return stored, exact
+
+
+def hjson(c):
+    return dict(c)
+
+
+def eval_huge(chk, cases, with_labels=True):
+    for c in cases:
+        if c["entry"] == "qvalues_from_scores":
+            c["desc"] = True
+        stored, exact = huge_expected(c)
+        # threshold between two of the q-values that occur (so that the labels depend on it), as a double
+        qs = sorted(set(float(x) for x in stored))
+        j = min(int(c["thr_pick"] * len(qs)), len(qs) - 1)
+        thr = (qs[j] + (qs[j + 1] if j + 1 < len(qs) else 1.0)) / 2 if c["thr_pick"] < 0.8 else qs[j]
+        wb = [[Fraction(b[0], c["den"]), [b[1], b[2]]] for b in c["blocks"]]
+        resp = common.driver_batch([req("qblocks", c["desc"], wb), req("labelsblocks", c["desc"], Fraction(thr), wb)])
+        mq = dec(resp[0])
+        ml = dec(resp[1])
+        nT, nD = sum(b[1] for b in c["blocks"]), sum(b[2] for b in c["blocks"])
+        small = dict(n=nT + nD, targets=nT, decoys=nD, blocks=len(c["blocks"]), sdtype=c["sdtype"], desc=c["desc"],
+                     order=c["order"], entry=c["entry"], lentry=c["lentry"], thr=thr)
+        if not isinstance(mq, list) or [a_rat(x) for x in mq] != exact or \
+                [rounded_c(a_rat(x)) for x in mq] != [float(x) for x in stored]:
+            chk.corr_break("qblocks", dict(hcase=hjson(c), summary=small, model=mq if not isinstance(mq, list) else mq[:5]))
+        sc, lab, ids = huge_arrays(c)
+        try:
+            q = np.asarray(impl_tdc(sc, lab, c["desc"], c["entry"]), dtype=float)
+        except Exception as e:
+            chk.spec_violation("exception:" + type(e).__name__, dict(hcase=hjson(c), summary=small, error=repr(e)[:300],
+                                                                   clause="tdc raised"))
+            continue
+        chk.case(None, ("huge", nT, nD, len(c["blocks"]), c["sdtype"], c["desc"], c["order"], c["oseed"]))
+        chk.count("huge-n", f"{(nT + nD) >> 20}Mi")
+        chk.count("huge-targets", "over-2^24" if nT > P24 else "below")
+        chk.count("huge-decoys", "over-2^24" if nD > P24 else "below")
+        chk.count("huge-order", c["order"])
+        chk.count("huge-layout", c.get("layout", "spread"))
+        chk.count("huge-thresholds-beyond-2^24", int(sum(1 for x in np.cumsum([b[1] for b in sorted(
+            c["blocks"], key=lambda b: -b[0] if c["desc"] else b[0])]) if x > P24)))
+        chk.count("huge-sdtype", c["sdtype"])
+        want = stored[ids]
+        if q.shape != want.shape or not np.array_equal(q, want):
+            bad = np.flatnonzero(q != want) if q.shape == want.shape else np.array([0])
+            chk.spec_violation(f"qvalue-formula:{c['entry']}",
+                               dict(hcase=hjson(c), summary=small, differing=int(len(bad)),
+                                    first_differences=[(int(i), float(q[i]), str(exact[int(ids[i])])) for i in bad[:5]],
+                                    clause="q-value differs from the defining formula (input with more than 2^24 targets)"))
+            continue
+        if not with_labels:
+            continue
+        blk_exact = np.array([1.0 if x <= Fraction(thr) else 0.0 for x in exact])
+        blk_stored = np.array([1.0 if float(x) <= thr else 0.0 for x in stored])
+        boundary = not np.array_equal(blk_exact, blk_stored)
+        if boundary:
+            chk.float_boundary += 1
+        elif not isinstance(ml, list) or [float(a_int(x)) for x in ml] != [float(x) for x in blk_exact]:
+            chk.corr_break("labelsblocks", dict(hcase=hjson(c), summary=small, model=ml))
+        tb = np.asarray(lab).astype(bool)
+        wantl = np.where(tb, (blk_stored if boundary else blk_exact)[ids], -1.0)
+        del q, want
+        try:
+            got = np.asarray(impl_labels(sc, lab, thr, c["desc"], c["lentry"], {}), dtype=float)
+        except Exception as e:
+            chk.spec_violation(f"exception-labels:{type(e).__name__}", dict(hcase=hjson(c), summary=small, error=repr(e)[:300],
+                                                                            clause="_update_labels raised"))
+            continue
+        chk.count("huge-lentry", c["lentry"])
+        if got.shape != wantl.shape or not np.array_equal(got, wantl):
+            chk.spec_violation(f"labels:{c['lentry']}",
+                               dict(hcase=hjson(c), summary=small,
+                                    differing=int((got != wantl).sum()) if got.shape == wantl.shape else -1,
+                                    clause="training labels differ from spec (input with more than 2^24 targets)"))
+
+
+def huge_inputs(chk, rng):
+    """one call with more than 2^24 targets on every run; one with more than 2^24 decoys under more than 2^24 targets
+    (n about 2^25) in the thorough tier and, q-values only, on every odd seed of the quick tier"""
+    eval_huge(chk, [gen_huge(rng, False)])
+    if chk.tier == "thorough":
+        eval_huge(chk, [gen_huge(rng, True)])
+        eval_huge(chk, [gen_huge(rng, False)], with_labels=False)
+    elif chk.seed % 2 == 1 and not chk.spec_violations:
+        eval_huge(chk, [gen_huge(rng, True)], with_labels=False)
+
+
+def count_types(chk):
+    """the count types of Model/QvaluesCnt.lean against numpy: a float32 running sum of ones stalls at 2^24
+    (`roundNat24`), the platform integer does not"""
+    lines, exp = [], []
+    for start in (P24 - 3, P24 - 1, P24):
+        for k in (1, 2, 8):
+            a = np.concatenate([[np.float32(start)], np.ones(k, dtype=bool)])
+            exp.append(int(np.cumsum(a, dtype=np.float32)[-1]))
+            lines.append(req("cumcount", Atom("f32"), 0, start, k))
+            b = np.concatenate([[start], np.ones(k, dtype=bool)])
+            exp.append(int(np.cumsum(b)[-1]))
+            lines.append(req("cumcount", Atom("i64"), 0, start, k))
+    ones = np.ones(5, dtype=bool)
+    exp.append(int(ones.cumsum()[-1]))
+    lines.append(req("cumcount", Atom("i64"), 0, 0, 5))
+    chk.count("count-dtype-of-cumsum", str(ones.cumsum().dtype))
+    resp = common.driver_batch(lines)
+    got = [a_int(dec(r)) for r in resp]
+    chk.case(None, ("count-types", tuple(exp)))
+    if got != exp:
+        chk.corr_break("cumcount", dict(impl=exp, model=got))
+
+
+
 def exhaustive(chk, nmax, nvals):
     cases = []
     for n in range(1, nmax + 1):
@@ -1222,11 +1466,13 @@ def unsupported_dtypes(chk):
                                                                    clause="q-value differs from the defining formula"))
         except Exception as e:
             chk.reject(f"score-dtype-{dt}:{type(e).__name__}")
-    # integer dtypes are cast to float32 (qvalues.py:106-107): an order embedding below 2^24 only. On record:
-    # what the code does beyond ("small-integer dtype" is read as excluding such values; see GAPS-C01.md G1-d)
-    big = np.array([2 ** 24 + 2, 2 ** 24 + 1, 2 ** 24], dtype=np.int64)
-    q = [float(x) for x in Q.tdc(big, np.array([True, True, False]))]
-    chk.count("int-scores-above-2^24", "kept-apart" if q == [0.5, 0.5, 1.0] else "merged-by-float32-cast")
+    # integer dtypes are cast to float64 (qvalues.py:106-107, float32 until /repo 36ef8db): an order embedding below
+    # 2^53.  Integers beyond 2^24 must stay apart (pinned cases compare them with the formula); on record: what the
+    # code does beyond 2^53 ("small-integer dtype" is read as excluding such values; see GAPS-C01.md G1-d)
+    for e in (24, 53):
+        big = np.array([2 ** e + 2, 2 ** e + 1, 2 ** e], dtype=np.int64)
+        q = [float(x) for x in Q.tdc(big, np.array([True, True, False]))]
+        chk.count(f"int-scores-above-2^{e}", "kept-apart" if q == [0.5, 0.5, 1.0] else "merged-by-the-cast")
 
 
 def pinned_cases():
@@ -1408,6 +1654,9 @@ def main(chk, args):
     large_inputs(chk, rng, LARGE_QUICK if chk.tier == "quick" else LARGE_THOROUGH * 3)
     threaded_calls(chk, rng, 20000, 2 if chk.tier == "quick" else 10)
     unsupported_dtypes(chk)
+    count_types(chk)
+    if not chk.spec_violations:
+        huge_inputs(chk, rng)
     if chk.tier == "thorough":
         exhaustive(chk, 6, 3)
     else:
@@ -1415,20 +1664,23 @@ def main(chk, args):
     minimise(chk)
     lc = None
     if chk.tier == "thorough":      # both property modules
-        lcs = [common.leanchecker(m) for m in ("C01", "C01Arr", "C01Key")]
+        lcs = [common.leanchecker(m) for m in ("C01", "C01Arr", "C01Key", "C01Cnt")]
         lc = (all(x[0] for x in lcs), "".join(x[1] for x in lcs))
     chk.assumptions += [
         "IEEE rounding of the single division (cum_decoys+1)/cum_targets is reproduced with the same numpy "
         "primitive (np.divide into a float32 out-array); the model works over exact rationals",
         "np.argsort / np.unique / cumsum behave as documented; numba executes _fdr2qvalue as written",
         "scores are finite and exactly representable in their dtype (integers, dyadic rationals); integer scores "
-        "stay below 2^24 in magnitude (tdc casts integer dtypes to float32, larger values would merge)",
+        "stay below 2^53 in magnitude (tdc casts integer dtypes to float64, larger values would merge)",
         "_fdr2qvalue is driven directly only on arrays satisfying its contract (one length, cumulative num_total, "
         "group sizes >= 1 covering the arrays)",
-        "integer scores whose float32 cast (model f32OfInt, compared with numpy's cast on every integer case) merges "
+        "integer scores whose float64 cast (model f64OfInt, compared with numpy's cast on every integer case) merges "
         "two distinct scores are outside 'small-integer dtype': there the code is compared with the model of the "
         "entry only (correspondence), nothing is claimed about the formula; the same integers in a pandas Series reach "
         "tdc as float64 and are compared with the formula on the integers as a correspondence",
+        "inputs with more than 2^24 targets are given as a histogram and expanded with np.repeat; their expected values "
+        "come from the histogram (int64 arithmetic, and the model op qblocks), never row by row; more than 2^24 decoys "
+        "are generated in the thorough tier and on odd seeds of the quick tier only",
         "inputs longer than 5000 rows are compared with the Python restatement of the formula only (the restatement "
         "is checked against the driver's qSpec on every short case of the run); the threaded calls are a test without "
         "false alarms, not a proof of re-entrancy (the schedule is the operating system's)",
@@ -1450,6 +1702,12 @@ def replay(chk, path):
         eval_sessions(chk, [sfrom_json(info["session"])])
         for sig, i in chk.spec_violations:
             print("REPRODUCED", sig, json.dumps(i)[:1500])
+        return 1 if chk.spec_violations else 0
+    if "hcase" in info:
+        common.build_and_audit("C01")
+        eval_huge(chk, [dict(info["hcase"])])
+        for sig, i in chk.spec_violations:
+            print("REPRODUCED", sig, json.dumps({k: v for k, v in i.items() if k != "hcase"})[:1500])
         return 1 if chk.spec_violations else 0
     if "lcase" in info:
         common.build_and_audit("C01")
